@@ -7,7 +7,9 @@ package main
 import (
 	"fmt"
 	"os"
+	"path/filepath"
 	"reflect"
+	"regexp"
 	"sort"
 	"strings"
 
@@ -36,7 +38,58 @@ func decodePen(s string) (vt.Pen, []string) {
 
 func isSGR(s string) bool { return strings.HasPrefix(s, "\x1b[") }
 
+// shipped: the names and aliases declared by the entry packages in the source tree
+// (terminfo/<letter>/<name>/term.go), read from the sources - independently of what ended up
+// registered: every one of them must resolve.
+func shipped() {
+	if *hc.Shard != 0 {
+		return
+	}
+	dir := os.Getenv("VERIF_REPO_DIR")
+	if dir == "" {
+		dir = "/repo"
+	}
+	files, _ := filepath.Glob(filepath.Join(dir, "terminfo", "*", "*", "term.go"))
+	nameRe := regexp.MustCompile(`(?m)^\s*Name:\s*"([^"]+)"`)
+	aliasRe := regexp.MustCompile(`(?m)^\s*Aliases:\s*\[\]string\{([^}]*)\}`)
+	strRe := regexp.MustCompile(`"([^"]+)"`)
+	n := 0
+	for _, f := range files {
+		src, err := os.ReadFile(f)
+		if err != nil {
+			continue
+		}
+		var names []string
+		for _, m := range nameRe.FindAllSubmatch(src, -1) {
+			names = append(names, string(m[1]))
+		}
+		for _, m := range aliasRe.FindAllSubmatch(src, -1) {
+			for _, a := range strRe.FindAllSubmatch(m[1], -1) {
+				names = append(names, string(a[1]))
+			}
+		}
+		rel, _ := filepath.Rel(dir, f)
+		for _, name := range names {
+			n++
+			w.R.Evaluations++
+			ti, err := terminfo.LookupTerminfo(name)
+			if err != nil || ti == nil {
+				w.Violation("shipped-unresolved:"+name, fmt.Sprintf("%s declares the terminal name %q, but the built-in database (terminfo/extended) does not resolve it: %v", rel, name, err), map[string]string{"name": name, "file": rel})
+				continue
+			}
+			if ti.SetCursor == "" {
+				w.Violation("shipped-no-cup:"+name, fmt.Sprintf("%s: %q resolves to an entry without cursor addressing", rel, name), map[string]string{"name": name})
+			}
+		}
+	}
+	w.R.Scenarios["shipped_names_in_source_tree"] = n
+	if n < 40 {
+		w.Violation("shipped-scan", fmt.Sprintf("only %d terminal names found under %s/terminfo: the source scan is broken", n, dir), nil)
+	}
+}
+
 func static() {
+	shipped()
 	entries := common.Entries()
 	w.R.Scenarios["entries"] = len(entries)
 	for ei, e := range entries {
